@@ -486,3 +486,60 @@ Proof.
     cbn [List.length]. reflexivity.
   - right. split; [exact Hneg|]. split; [reflexivity|]. exists j. reflexivity.
 Qed.
+
+(* ================================================================== cs_end / cols_end are where the L1 model's readers (Slice.v) end *)
+From Sbdf Require Import Slice.
+Lemma props_end_of_model : forall fuel n s ps s', rrep fuel n (read_prop false None) s = Ok (ps, s') -> props_end (Z.to_nat n) s = Some s'.
+Proof.
+  induction fuel as [|x fuel IH]; intros n s ps s' E; cbn [rrep] in E.
+  - destruct (n <=? 0) eqn:En; [injection E as _ <-; replace (Z.to_nat n) with 0%nat by lia; reflexivity|].
+    destruct (read_prop false None s) as [[a t]|e]; discriminate.
+  - destruct (n <=? 0) eqn:En; [injection E as _ <-; replace (Z.to_nat n) with 0%nat by lia; reflexivity|].
+    replace (Z.to_nat n) with (S (Z.to_nat (n - 1))) by lia. cbn [props_end].
+    destruct (read_prop false None s) as [[a s2]|e1] eqn:EP; [|discriminate].
+    destruct (rrep fuel (n - 1) (read_prop false None) s2) as [[l s3]|e3] eqn:ER; [|discriminate].
+    injection E as _ <-.
+    revert EP. unfold read_prop, rd_bind, rret.
+    destruct (read_string false None s) as [[nm s1]|]; [|discriminate].
+    destruct (Va.va_read false None s1) as [[va sV]|]; [|discriminate].
+    intros [= _ <-]. apply (IH (n - 1) sV l s3 ER).
+Qed.
+
+Lemma cs_end_of_model sx c s' : Slice.cs_read false None sx = Ok (c, s') -> cs_end sx = Some s'.
+Proof.
+  unfold Slice.cs_read, cs_end, rd_bind, rfail, rret, ralloc, alloc_ok.
+  destruct (sec_expect SBDF_COLUMNSLICE_SECTIONID sx) as [[u s1]|]; [|discriminate].
+  destruct (Va.va_read false None s1) as [[va s2]|]; [|discriminate].
+  destruct (read_int32 false s2) as [[v s3]|]; [|discriminate].
+  destruct (v <? 0); [discriminate|]. destruct (INT_MAX / 16 <? v); [discriminate|].
+  unfold rrepeat. destruct (rrep s3 v (read_prop false None) s3) as [[ps s4]|] eqn:ER; [|discriminate].
+  intros [= _ <-]. apply (props_end_of_model s3 v s3 ps s4 ER).
+Qed.
+
+Lemma cols_end_of_model : forall n sx cs s', read_cols false None n None sx = Ok (cs, s') -> cols_end n sx = Some s'.
+Proof.
+  induction n as [|n IH]; intros sx cs s' E; cbn [read_cols cols_end] in *.
+  - unfold rret in E. injection E as _ <-. reflexivity.
+  - revert E. unfold rd_bind, rret. cbn [option_map].
+    destruct (Slice.cs_read false None sx) as [[c s1]|] eqn:EC; [|discriminate].
+    rewrite (cs_end_of_model sx c s1 EC).
+    destruct (read_cols false None n None s1) as [[rest s2]|] eqn:ER; [|discriminate].
+    intros [= _ <-]. apply (IH s1 rest s2 ER).
+Qed.
+
+Lemma cs_end_intro sx s1 va s2 v s3 s' : sec_expect SBDF_COLUMNSLICE_SECTIONID sx = Ok (tt, s1) -> Va.va_read false None s1 = Ok (va, s2) -> read_int32 false s2 = Ok (v, s3) -> 0 <= v ->
+  props_end (Z.to_nat v) s3 = Some s' -> cs_end sx = Some s'.
+Proof. intros E1 E2 E3 Hv E5. unfold cs_end. rewrite E1, E2, E3. replace (v <? 0) with false by lia. exact E5. Qed.
+
+(* whenever the source's sbdf_cs_read succeeds - under ANY allocation schedule - and the L1 model's cs_read accepts the stream,
+   the two leave the stream at the same place *)
+Theorem cs_read_position_is_the_models rf rp fo po k sx m h c sM : Forall byte sx -> cs_nobit sx -> Slice.cs_read false None sx = Ok (c, sM) ->
+  exists f0, forall f, (f0 <= f)%nat -> exists st fin,
+    callC prog_env f prog_sbdf_cs_read [VPtr rf fo; VPtr rp po] m k sx h = OReturn (VInt st) fin /\
+    (st = SBDF_OK -> lookup strm_var (vars fin) = Some (VBytes sM)).
+Proof.
+  intros Hs (NB & NBP) EM. destruct (cs_read_full_source rf rp fo po k sx m h Hs NB NBP) as (f0 & F). exists f0. intros f Hf.
+  destruct (F f Hf) as (st & fin & C & _ & Out). exists st, fin. split; [exact C|]. intros E.
+  destruct Out as [(_ & _ & (s1 & va & s2 & v & s3 & s' & A1 & A2 & A3 & A4 & A5 & A6) & _)|(Hn & _)]; [|unfold SBDF_OK in E; lia].
+  pose proof (cs_end_intro sx s1 va s2 v s3 s' A1 A2 A3 A4 A5) as CE. rewrite (cs_end_of_model sx c sM EM) in CE. assert (sM = s') by congruence. subst s'. exact A6.
+Qed.
